@@ -23,6 +23,7 @@ type Path struct {
 	CutTo   *ssa.BasicBlock   // target of the skipped back edge
 	Env     *env
 	Stack   []*ssa.Function // inlined callees being walked (innermost last)
+	StackC  []*ssa.Call     // the calls being inlined (parallel to Stack)
 	Inlined []*ssa.Call     // calls that were replaced by the callee's paths
 	Calls   []pathCall      // every call on the path with its argument keys as they were at that point
 }
@@ -37,12 +38,14 @@ type pathCall struct {
 }
 
 type pathWalker struct {
-	c      *Ctx
-	fn     *ssa.Function
-	max    int
-	paths  []*Path
-	over   bool
-	inline *InlineOpts
+	cutCall  map[*ssa.Call]bool // inlined calls inside which a path was cut at a loop
+	noInline map[*ssa.Call]bool // calls that are not inlined again after that
+	c        *Ctx
+	fn       *ssa.Function
+	max      int
+	paths    []*Path
+	over     bool
+	inline   *InlineOpts
 }
 
 // InlineOpts switches on inlining of helper calls during path enumeration: a call of a module function
@@ -56,6 +59,7 @@ type InlineOpts struct {
 	Keep  map[*ssa.Function]bool
 	Depth int                        // maximal nesting (default 3)
 	Bool  bool                       // also inline boolean predicates
+	Loops bool                       // keep a helper inlined even when one of its loops is cut (cycle analyses)
 	Pred  func(g *ssa.Function) bool // if set, decides which callees are inlined (replaces the result-based default)
 }
 
@@ -78,9 +82,9 @@ func (c *Ctx) enumPathsOpt(fn *ssa.Function, max int, o *InlineOpts) (paths []*P
 	if fn == nil || len(fn.Blocks) == 0 {
 		return nil, true
 	}
-	w := &pathWalker{c: c, fn: fn, max: max, inline: o}
+	w := &pathWalker{c: c, fn: fn, max: max, inline: o, cutCall: map[*ssa.Call]bool{}, noInline: map[*ssa.Call]bool{}}
 	p := &Path{Fn: fn, Env: newEnv()}
-	w.enter(fn.Blocks[0], nil, p, map[*ssa.BasicBlock]bool{}, func(p *Path, ret *ssa.Return) {
+	w.enter(fn.Blocks[0], nil, p, map[*ssa.BasicBlock]int{}, func(p *Path, ret *ssa.Return) {
 		p.Ret = ret
 		w.emit(p)
 	})
@@ -93,6 +97,7 @@ func (p *Path) fork() *Path {
 	n.Atoms = append([]Atom(nil), p.Atoms...)
 	n.Instrs = append([]ssa.Instruction(nil), p.Instrs...)
 	n.Stack = append([]*ssa.Function(nil), p.Stack...)
+	n.StackC = append([]*ssa.Call(nil), p.StackC...)
 	n.Inlined = append([]*ssa.Call(nil), p.Inlined...)
 	n.Calls = append([]pathCall(nil), p.Calls...)
 	return n
@@ -111,20 +116,20 @@ func (c *Ctx) wasInlined(p *Path, call *ssa.Call) bool {
 // frameK: what happens when the frame being walked returns.
 type frameK func(p *Path, ret *ssa.Return)
 
-func copyOn(on map[*ssa.BasicBlock]bool) map[*ssa.BasicBlock]bool {
-	n := make(map[*ssa.BasicBlock]bool, len(on))
+func copyOn(on map[*ssa.BasicBlock]int) map[*ssa.BasicBlock]int {
+	n := make(map[*ssa.BasicBlock]int, len(on))
 	for k, v := range on {
 		n[k] = v
 	}
 	return n
 }
 
-func (w *pathWalker) enter(b, pred *ssa.BasicBlock, p *Path, on map[*ssa.BasicBlock]bool, k frameK) {
+func (w *pathWalker) enter(b, pred *ssa.BasicBlock, p *Path, on map[*ssa.BasicBlock]int, k frameK) {
 	if w.over {
 		return
 	}
-	on[b] = true
-	defer delete(on, b)
+	on[b]++
+	defer func() { on[b]-- }()
 	p.Blocks = append(p.Blocks, b)
 	// resolve phis for the incoming edge (all at once, using the environment before the block)
 	if pred != nil {
@@ -161,7 +166,7 @@ func (w *pathWalker) enter(b, pred *ssa.BasicBlock, p *Path, on map[*ssa.BasicBl
 	w.run(b, 0, p, on, k)
 }
 
-func (w *pathWalker) run(b *ssa.BasicBlock, start int, p *Path, on map[*ssa.BasicBlock]bool, k frameK) {
+func (w *pathWalker) run(b *ssa.BasicBlock, start int, p *Path, on map[*ssa.BasicBlock]int, k frameK) {
 	for i := start; i < len(b.Instrs); i++ {
 		in := b.Instrs[i]
 		p.Instrs = append(p.Instrs, in)
@@ -182,7 +187,16 @@ func (w *pathWalker) run(b *ssa.BasicBlock, start int, p *Path, on map[*ssa.Basi
 				}
 				p.Calls = append(p.Calls, pc)
 			}
-			if g := w.inlineTarget(x, p); g != nil {
+			if g := w.inlineTarget(x, p); g != nil && !w.noInline[x] {
+				// default mode: a helper whose loop cannot be unrolled loses its looping paths when read in
+				// place, so such a call is rolled back and stays a call
+				rollback := w.inline.Pred == nil && !w.inline.Loops
+				var saved *Path
+				mark, overBefore := len(w.paths), w.over
+				if rollback {
+					saved = p.fork()
+					delete(w.cutCall, x)
+				}
 				if p.Env.par == nil {
 					p.Env.par = map[*ssa.Parameter]ssa.Value{}
 				}
@@ -193,11 +207,12 @@ func (w *pathWalker) run(b *ssa.BasicBlock, start int, p *Path, on map[*ssa.Basi
 					}
 				}
 				p.Stack = append(p.Stack, g)
+				p.StackC = append(p.StackC, x)
 				p.Inlined = append(p.Inlined, x)
 				depth := len(p.Stack)
 				onCaller := copyOn(on)
 				next := i + 1
-				w.enter(g.Blocks[0], nil, p, map[*ssa.BasicBlock]bool{}, func(p2 *Path, ret *ssa.Return) {
+				w.enter(g.Blocks[0], nil, p, map[*ssa.BasicBlock]int{}, func(p2 *Path, ret *ssa.Return) {
 					snap := p2.Env.clone()
 					if p2.Env.res == nil {
 						p2.Env.res = map[ssa.Value]binding{}
@@ -212,8 +227,16 @@ func (w *pathWalker) run(b *ssa.BasicBlock, start int, p *Path, on map[*ssa.Basi
 						}
 					}
 					p2.Stack = p2.Stack[:depth-1]
+					p2.StackC = p2.StackC[:depth-1]
 					w.run(b, next, p2, copyOn(onCaller), k)
 				})
+				if rollback && w.cutCall[x] {
+					w.paths = w.paths[:mark]
+					w.over = overBefore
+					w.noInline[x] = true
+					p = saved
+					continue
+				}
 				return
 			}
 		case *ssa.Return:
@@ -270,14 +293,62 @@ func (w *pathWalker) run(b *ssa.BasicBlock, start int, p *Path, on map[*ssa.Basi
 	w.emit(p)
 }
 
-func (w *pathWalker) next(from, to *ssa.BasicBlock, p *Path, on map[*ssa.BasicBlock]bool, k frameK) {
-	if on[to] {
+func (w *pathWalker) next(from, to *ssa.BasicBlock, p *Path, on map[*ssa.BasicBlock]int, k frameK) {
+	if on[to] > 0 {
+		// a back edge. When helpers are read in place, a loop whose continuation test folds to a constant
+		// under the values of this path (a range over a literal argument list) is unrolled, at most 8 times.
+		if w.inline != nil && on[to] < 8 && w.headerFolds(from, to, p) {
+			// the next iteration may pass through the loop's blocks again: they are no longer "on the path"
+			on2 := make(map[*ssa.BasicBlock]int, len(on))
+			for b, n := range on {
+				if b != to && to.Dominates(b) {
+					continue
+				}
+				on2[b] = n
+			}
+			w.enter(to, from, p, on2, k)
+			return
+		}
 		p.Cut = true
 		p.CutTo = to
+		for _, cx := range p.StackC {
+			w.cutCall[cx] = true
+		}
 		w.emit(p)
 		return
 	}
 	w.enter(to, from, p, on, k)
+}
+
+// headerFolds: entering `to` from `from` with the phi values of that edge, does the block end in a
+// branch whose condition is a constant?
+func (w *pathWalker) headerFolds(from, to *ssa.BasicBlock, p *Path) bool {
+	iff, ok := to.Instrs[len(to.Instrs)-1].(*ssa.If)
+	if !ok {
+		return false
+	}
+	idx := -1
+	for i, pp := range to.Preds {
+		if pp == from {
+			idx = i
+		}
+	}
+	if idx < 0 {
+		return false
+	}
+	tmp := p.Env.clone()
+	for _, in := range to.Instrs {
+		ph, ok := in.(*ssa.Phi)
+		if !ok {
+			break
+		}
+		tmp.phi[ph] = w.c.resolve(ph.Edges[idx], p.Env)
+	}
+	if kc, ok := w.c.resolve(iff.Cond, tmp).(*ssa.Const); ok && kc.Value != nil && kc.Value.Kind() == constant.Bool {
+		return true
+	}
+	_, ok = w.c.foldCmp(iff.Cond, tmp)
+	return ok
 }
 
 func (w *pathWalker) emit(p *Path) {
@@ -377,8 +448,9 @@ func (c *Ctx) calleeE(call *ssa.Call, e *env) *ssa.Function {
 	return nil
 }
 
-// inCycleAvoiding: f can reach itself through static calls without passing through root or a kept
-// function (those are never inlined, so recursion through them does not unfold).
+// inCycleAvoiding: f can reach itself through static calls without passing through a kept function
+// (those are never inlined, so recursion through them does not unfold). Recursion through the root itself
+// does count: constructors that call each other stay calls.
 func (c *Ctx) inCycleAvoiding(f, root *ssa.Function, keep map[*ssa.Function]bool) bool {
 	if !c.inCycle(f) {
 		return false
@@ -393,7 +465,7 @@ func (c *Ctx) inCycleAvoiding(f, root *ssa.Function, keep map[*ssa.Function]bool
 					continue
 				}
 				sc := staticCallee(call)
-				if sc == nil || !inModule(sc) || sc == root || keep[sc] {
+				if sc == nil || !inModule(sc) || keep[sc] {
 					continue
 				}
 				if sc == f {
